@@ -41,6 +41,7 @@ function render(c) {
     return `${R.PRELUDE}${uniq.join('\n')}\n${fn}\nexport const C = make();\n`;
   }
   const decls = enc.decls.join('\n');
+  if (c.scope === 'twice') return `${R.PRELUDE}${decls}\nexport const C0 = ${call};\nexport const C = ${call};\n`;
   return c.pos === 'before' ? `${R.PRELUDE}${decls}\nexport const C = ${call};\n` : `${R.PRELUDE}export const C = ${call};\n${decls}\n`;
 }
 
@@ -61,8 +62,14 @@ function judge(c, resps) {
   for (const e of expMap) exp[e.name] = { required: e.kind === 'getter' ? true : !e.optional };
   const res = R.run(r.eval_js);
   if (res.load) { viol.push({ clause: 'load', diff: 'exception', msg: res.load }); return { viol, obs: 'load' }; }
-  const call = res.calls.find((x) => x.who === 'vue');
+  const vueCalls = res.calls.filter((x) => x.who === 'vue');
+  // two components using the same declarations: the second one is judged in full, the first must agree with it
+  const call = vueCalls[c.scope === 'twice' ? 1 : 0];
   const props = call && call.args[1] && call.args[1].props;
+  if (c.scope === 'twice') {
+    const norm = (cl) => { const p = cl && cl.args[1] && cl.args[1].props; const o = {}; if (p && typeof p === 'object') for (const k of Object.keys(p)) o[k] = !!(p[k] && p[k].required); return stable(o); };
+    if (norm(vueCalls[0]) !== norm(vueCalls[1])) viol.push({ clause: 'keys', diff: 'twice:components-differ', msg: 'two components declared with the same props type got different props', expected: norm(vueCalls[0]), observed: norm(vueCalls[1]) });
+  }
   const got = {};
   if (props && typeof props === 'object') for (const k of Object.keys(props)) got[k] = { required: props[k] && props[k].required };
   if (errors.length) viol.push({ clause: 'resolvable-without-error', diff: 'diag:' + errors[0].msg.replace(/[^A-Za-z ]/g, '').slice(0, 40), msg: `a resolvable props type produced the error "${errors[0].msg}"`, expected: exp, observed: got });
@@ -91,11 +98,12 @@ function spaces(tier) {
   return [
     {
       name: 'P:maps×encodings',
-      bounds: { entry_menu: R.ENTRY_MENU.map(R.memberSrc), max_entries: thorough ? 4 : 3, operators: R.ENC_KEYS, operator_depth: thorough ? 3 : 2, positions: ['before', 'after'], scopes: ['module', 'shadow (function declaration)', 'shadow in arrow', 'shadow in function expression', 'shadowing chain through outer types'] },
+      bounds: { entry_menu: R.ENTRY_MENU.map(R.memberSrc), max_entries: thorough ? 4 : 3, operators: R.ENC_KEYS, operator_depth: thorough ? 3 : 2, positions: ['before', 'after'], scopes: ['module', 'shadow (function declaration)', 'shadow in arrow', 'shadow in function expression', 'shadowing chain through outer types', 'two components using the same declarations'] },
       *gen() {
         for (const map of allMaps) for (const path of paths(1)) for (const pos of ['before', 'after']) for (const scope of ['module', 'shadow', 'shadowArrow', 'shadowFnExpr']) yield { sp: 'P', map, path, pos, scope };
         for (const map of allMaps) yield { sp: 'P', map, path: [], pos: 'before', scope: 'shadowChain' };
-        for (const map of (thorough ? allMaps : coreMaps)) for (const path of paths(thorough ? 3 : 2)) if (path.length >= 2) for (const pos of (thorough ? ['before', 'after'] : ['before'])) {
+        for (const map of allMaps) for (const path of paths(1)) yield { sp: 'P', map, path, pos: 'before', scope: 'twice' };
+        for (const map of (thorough ? allMaps : allMaps.filter((m) => m.length <= 2).concat(coreMaps.filter((m) => m.length === 3)))) for (const path of paths(thorough ? 3 : 2)) if (path.length >= 2) for (const pos of (thorough ? ['before', 'after'] : ['before'])) {
           if (thorough && path.length === 3 && map.length !== 2) continue;
           yield { sp: 'P', map, path, pos, scope: 'module' };
         }
